@@ -72,7 +72,7 @@ fn script(c: &Ctx, d: u64, a: u64, max_ev: u64, kinds: &[u8]) -> Vec<Ev> {
             vec![Ev { off: d_ / 2, kind: 2 }, Ev { off: d_ + d_ / 4, kind: 2 }],
             vec![Ev { off: d_ / 2, kind: 2 }],
             vec![Ev { off: d_ / 2, kind: 2 }, Ev { off: d_ + d_ / 4, kind: 2 }, Ev { off: d_ / 2 + a_ + 1, kind: other }],
-            vec![Ev { off: d_ / 4, kind: 2 }, Ev { off: d_ / 2, kind: 2 }, Ev { off: d_ + d_ / 8, kind: 2 }],
+            vec![Ev { off: d_ / 2, kind: 2 }, Ev { off: d_ + d_ / 4, kind: 2 }, Ev { off: 2 * d_, kind: 2 }],
             vec![Ev { off: d_ - 1, kind: 2 }, Ev { off: d_, kind: other }],
             vec![Ev { off: d_ / 2, kind: 2 }, Ev { off: d_ / 2 + a_ - 1, kind: other }],
         ];
@@ -150,6 +150,11 @@ fn print_case(c: &Ctx, api: u32, in_co: bool, d: u64, o: &Out, evs: &[(u64, u8)]
     if o.res == 1 && el < d {
         c.fail(format!("api {api} ctx {}: timeout of {d} ns reported after only {el} ns", if in_co { "co" } else { "th" }));
     }
+    // after wake-ups without data the deadline loops park for the full timeout again: the last park of a call starts
+    // before the deadline, so 2 d + 1 ms bounds the call whatever the number of wake-ups (C08_callers_code_loop_returned_partial)
+    if o.res == 1 && spurious && el > 2 * d + MS {
+        c.fail(format!("api {api} ctx {}: timeout of {d} ns reported only after {el} ns (more than 2 d + 1 ms) although nothing delayed the call", if in_co { "co" } else { "th" }));
+    }
     if o.res == 1 && !spurious && el > d + MS {
         c.fail(format!("api {api} ctx {}: timeout of {d} ns reported only after {el} ns although nothing delayed the call", if in_co { "co" } else { "th" }));
     }
@@ -196,6 +201,9 @@ fn main() {
                     if stalled && d >= 400_000 && ((d + d / 4) as u64) < stall_x && ctx.rand() % 2 == 0 {
                         // classic pattern: wake-ups without data at d/2 and at d + d/4
                         evs = vec![Ev { off: (d / 2) as i64 - stall_x as i64, kind: 8 }, Ev { off: (d + d / 4) as i64 - stall_x as i64, kind: 8 }];
+                        if 2 * d < stall_x {
+                            evs.push(Ev { off: (2 * d) as i64 - stall_x as i64, kind: 8 });
+                        }
                     }
                     for e in evs.iter_mut() {
                         if e.kind == 9 {
